@@ -157,7 +157,15 @@ class Program:
         self.parents = {}  # id(node) -> parent node, filled lazily per module
         self._parented = set()
         self.touched = set()  # anchors a rule asked for (reported in evidence)
+        self.inlined = []  # report of the helper-expansion pass (coaplint/inline.py)
         self._load()
+        if not os.environ.get("COAPLINT_NO_INLINE"):
+            from . import inline
+
+            try:
+                self.inlined = inline.run(self.modules)
+            except RecursionError as e:  # pragma: no cover
+                raise AnalysisError("helper expansion failed: %s" % e)
         self._index()
 
     # ------------------------------------------------------------------
